@@ -581,6 +581,8 @@ struct Slot<A: Flavour> {
   kind: HKind,
   /// id of the arena value the handle was allocated through
   arena: u32,
+  /// detached but kept alive (`hold`): no longer listed as live, only `drop` is meant for it
+  held: bool,
 }
 
 impl<A: Flavour> Slot<A> {
@@ -1003,7 +1005,7 @@ impl<A: Flavour> Case<A> {
   /// Registers a fresh handle and formats the answer of the allocation.
   /// `am`: print `am=<ptr % A>`; `z`: print the zero check.
   fn admit(&mut self, id: u32, h: Handle<A>, kind: HKind, am: Option<u64>, z: bool) -> String {
-    let mut slot = Slot { h, kind, arena: self.cur_id() };
+    let mut slot = Slot { h, kind, arena: self.cur_id(), held: false };
     let [off, cap, boff, bcap] = slot.dims();
     let mut s = format!("r=ok off={off} cap={cap} boff={boff} bcap={bcap}");
     if let Some(a) = am {
@@ -1187,6 +1189,21 @@ impl<A: Flavour> Case<A> {
             }
             drop(s);
             format!("r=ok dc={}", DropCounter::drops())
+          }
+        }
+      }
+      // `detach()` on an OWNED handle that then stays alive (it keeps its arena value: refs() stays up) until `drop H`,
+      // which releases nothing
+      "hold" => {
+        argc(2)?;
+        let h: u32 = parse(t[1])?;
+        match self.handles.get_mut(&h) {
+          None => NOHANDLE.to_string(),
+          Some(s) if !matches!(s.kind, HKind::BytesOwn) => return None,
+          Some(s) => {
+            s.detach();
+            s.held = true;
+            "r=ok".to_string()
           }
         }
       }
@@ -1680,6 +1697,7 @@ impl<A: Flavour> CaseApi for Case<A> {
     let mut v: Vec<HandleInfo> = self
       .handles
       .iter()
+      .filter(|(_, s)| !s.held)
       .map(|(id, s)| {
         let [off, cap, boff, bcap] = s.dims();
         HandleInfo { id: *id, kind: s.kind, off, cap, boff, bcap, len: s.len().unwrap_or(0), arena: s.arena }
@@ -2023,9 +2041,9 @@ fn mappings_of(path: &Path) -> usize {
 }
 
 /// First tokens of the lines that need an arena (answered `r=closed` while the case is closed).
-const ARENA_OPS: [&str; 45] = [
+const ARENA_OPS: [&str; 46] = [
   "alloc_bytes", "alloc_bytes_owned", "alloc_aligned", "alloc_aligned_owned", "alloc_t", "alloc_t_owned",
-  "alloc_d", "alloc_d_owned", "alloc_z", "alloc_z_owned", "fill", "drop", "detach", "dealloc", "discard_freelist", "set_minseg",
+  "alloc_d", "alloc_d_owned", "alloc_z", "alloc_z_owned", "fill", "drop", "detach", "hold", "dealloc", "discard_freelist", "set_minseg",
   "inc_discarded", "rewind", "clear", "truncate", "clone", "drop_arena", "rd", "rd_var", "slices",
   "checksum", "info", "wres", "rres", "put", "get", "put_var", "get_var", "put_varu", "get_varu", "wput", "wput_var", "put_slice", "set_len", "align_to",
   "put_aligned", "putT", "flush", "remove_on_drop", "close",
